@@ -41,4 +41,53 @@ PROPS = {
         "trusted": ["values are an arbitrary linear order in the theorems; the driver instantiates them with release lists / strings (Val)"],
         "assumptions": ["memoisation (the AND cache) and hash-consing are not part of this model; they are the subject of C14"],
     },
+    "C03": {
+        "lean_targets": ["Pep508.Theorems.C03"],
+        "theorems": [
+            "Pep508.canonical", "Pep508.C03.equal_iff_same_function", "Pep508.C03.is_true_iff", "Pep508.C03.is_false_iff",
+            "Pep508.C03.and_comm_of_wf", "Pep508.partition_unique", "Pep508.Tree.eval_agree",
+        ],
+        "suites": [{"name": "algebra", "args": ["C03"]}],
+        "rule": "a pool of markers is built through the real API along random construction paths (typed expressions, and/or/negate, simplify_extras, "
+                "simplify/complexify_python_versions, plus shapes generated on purpose: >=3 edges whose children coincide after an op, python_full_version "
+                "below/above other variables); (1) every operation is applied one step from literal operands and the result dump compared with the model; "
+                "(2) ten algebraic laws (commutativity, associativity, distributivity both ways, absorption, De Morgan, double negation, excluded middle) are "
+                "instantiated with pool markers: both sides are built through the API and must be == with equal hash and Ordering::Equal; (3) groups of 14 markers "
+                "over a small variable set get EXHAUSTIVE truth tables over the joint abstract grid (one region per gap/point of the bounds of each version/string "
+                "variable, one free boolean per in/contains/extra variable, evaluated by walking kind()): same table <=> == , and is_true/is_false exactly for the "
+                "constant tables; non-trivial = distinct op case / law instance / marker in an exhaustively tabulated group",
+        "trusted": ["the value order is assumed dense without end points in `canonical` (DESIGN §7 C03 names what falls outside: an edge below the domain minimum, "
+                    "or between adjacent strings); Eq/Hash on NodeId = structural equality of the kind() view is the subject of C14"],
+        "assumptions": ["`wf` of the operands: C20"],
+    },
+}
+
+NOT_APPLICABLE = {}
+
+_NOTE = ("Trusted: Lean 4.33 kernel (+ propext, Classical.choice, Quot.sound, audited per theorem); the hand-written model is tied to the code by "
+         "differential correspondence on generated cases (sampled, not proved); ")
+MANIFEST_TEXT = {
+    "C09": {
+        "technique": "Lean 4 theorems over a byte-level model of both name scanners + bounded-exhaustive differential correspondence",
+        "text": "Seven theorems over ALL byte strings (acceptance iff valid, stored form = declarative normal form, owned = borrowed constructor, idempotence, "
+                "equality, dist-info escaping, empty rejected) about a transcription of src/normalize/mod.rs; the model is tied to the code by exhaustive "
+                "comparison on every string up to length 5/6 over one representative per character class plus random long names.",
+        "note": _NOTE + "serde_json string decoding and std ASCII helpers are not modelled.",
+    },
+    "C02": {
+        "technique": "Lean 4 theorem: and/or/not on the kind()-view diagram model are pointwise for every environment of every linear order (induction on fuel; "
+                     "apply_ranges product/coalesce lemmas) + one-step differential correspondence on literal operands",
+        "text": "andF_spec: for all well-formed diagrams and all environments over an arbitrary linear order, and = pointwise AND (or, not likewise), "
+                "well-formedness preserved, identities/annihilators as structural equalities, lift to arbitrary and/or/not combinations (eval_build). The model's "
+                "operations are tied to InternerGuard::and/or, NodeId::not by one-step differential comparison on operands built through every API.",
+        "note": _NOTE + "memo cache and interner are outside this model (C14); version-ranges intersection/union re-implemented on single intervals.",
+    },
+    "C03": {
+        "technique": "Lean 4 theorem: canonicity of reduced ordered interval-edge decision diagrams (wf x, wf y, equal in every environment => x = y) over dense "
+                     "unbounded orders + law-based and exhaustive-truth-table oracles on the implementation",
+        "text": "`canonical` (and is_true/is_false iff constant) proved by induction on size with partition-uniqueness and variable-independence lemmas; tied to the "
+                "code through the C20 predicate evaluated on implementation dumps, one-step operation correspondence, ten algebraic laws and exhaustive truth tables "
+                "over abstract valuations (the property's stated granularity).",
+        "note": _NOTE + "density / no end points of the value order is a hypothesis of the theorem (what falls outside is named in DESIGN §7 C03); id = structure is C14.",
+    },
 }
